@@ -56,6 +56,12 @@ var c01Pool = []poolRule{
 	{"$x++", ""},
 	{"$x[$i]", ""},
 	{"$k: $v", ""},
+	// list patterns with several sub-matches per node and a filter that accepts only some of them
+	{"$x, $x", ""},
+	{"$x, $x", `m["x"].Text == "1"`},
+	{"$x, $y", `m["y"].Text == "2"`},
+	{"sum($*_)", ""},
+	{"$f($*_)", `m["f"].Text == "sum"`},
 }
 
 const c01Extra = `
@@ -89,6 +95,21 @@ func extra(x int, xs []int) (int, int) {
 }
 
 func add(a, b int) int { return a + b }
+
+func sum(xs ...int) int { return len(xs) }
+
+func sums(x int) (int, int, int, int) {
+	_ = sum(1, 1, 2, 2)
+	_ = sum(2, 2, 1, 1)
+	_ = sum(1, 1, 1, 1)
+	_ = sum(3, 2, 3, 2)
+	_ = []int{1, 1, 4, 4}
+	_ = []int{x, 2, 1, 2}
+	if x > 2 {
+		return 1, 1, 5, 5
+	}
+	return x, 2, x, x
+}
 
 func empty1() {}
 
@@ -214,7 +235,7 @@ func ruleSetComposition(c *Ctx, suite, stream string, pool []poolRule, extraTarg
 		tree  *hx.Tree
 		attr  *attribution
 		visit string // "(id tag) …" of the implementation's walk
-		alone map[int]map[int]int // pool index -> node id -> number of reports
+		alone map[int]map[int][]bool // pool index -> node id -> verdict of every gogrep callback, in order
 	}
 	var targets []*target
 	for i := 0; i < nTargets; i++ {
@@ -224,7 +245,7 @@ func ruleSetComposition(c *Ctx, suite, stream string, pool []poolRule, extraTarg
 			return fmt.Errorf("target: %v\n%s", err, src)
 		}
 		tree := hx.BuildTree(t.File, t.Info)
-		tg := &target{t: t, tree: tree, attr: newAttribution(t, tree), alone: map[int]map[int]int{}}
+		tg := &target{t: t, tree: tree, attr: newAttribution(t, tree), alone: map[int]map[int][]bool{}}
 		var sb strings.Builder
 		_, vs := implTrace(t, tree)
 		for _, v := range vs {
@@ -235,35 +256,74 @@ func ruleSetComposition(c *Ctx, suite, stream string, pool []poolRule, extraTarg
 		tg.visit = sb.String()
 		targets = append(targets, tg)
 	}
-	aloneEngines := map[int]*ruleguard.Engine{}
-	aloneOf := func(k int, tg *target) (map[int]int, error) {
-		if m, ok := tg.alone[k]; ok {
-			return m, nil
+	// Oracle for "does rule k match node n, with how many sub-matches, each accepted or not": the rule alone with
+	// its Where clause gives the accepted sub-matches, the same pattern without the clause gives all of them (in
+	// callback order); a sub-match is identified by its span.
+	aloneEngines := map[string]*ruleguard.Engine{}
+	runAlone := func(k int, bare bool, tg *target) ([]hx.Report, error) {
+		pr := c01Pool[k]
+		if bare {
+			pr.where = ""
 		}
-		e, ok := aloneEngines[k]
+		key := fmt.Sprintf("%d:%v", k, bare)
+		e, ok := aloneEngines[key]
 		if !ok {
 			var err error
-			e, err = hx.LoadRules(hx.RulesFile(decls + "func r(m dsl.Matcher) {\n" + ruleText(k, c01Pool[k]) + "}\n"))
+			e, err = hx.LoadRules(hx.RulesFile(decls + "func r(m dsl.Matcher) {\n" + ruleText(k, pr) + "}\n"))
 			if err != nil {
-				return nil, fmt.Errorf("pool rule %d (%s): %v", k, c01Pool[k].pat, err)
+				return nil, fmt.Errorf("pool rule %d (%s): %v", k, pr.pat, err)
 			}
-			aloneEngines[k] = e
+			aloneEngines[key] = e
 		}
 		rs, pk, frame, err := hx.Run(e, tg.t, hx.RunOpts{})
 		if err != nil {
 			return nil, err
 		}
 		if pk != "" {
-			return nil, fmt.Errorf("pool rule %d (%s) alone: %s at %s", k, c01Pool[k].pat, pk, frame)
+			return nil, fmt.Errorf("pool rule %d (%s) alone: %s at %s", k, pr.pat, pk, frame)
 		}
-		m := map[int]int{}
-		for _, r := range rs {
+		return rs, nil
+	}
+	aloneOf := func(k int, tg *target) (map[int][]bool, error) {
+		if m, ok := tg.alone[k]; ok {
+			return m, nil
+		}
+		all, err := runAlone(k, true, tg)
+		if err != nil {
+			return nil, err
+		}
+		accepted := map[string]int{}
+		if c01Pool[k].where != "" {
+			acc, err := runAlone(k, false, tg)
+			if err != nil {
+				return nil, err
+			}
+			for _, r := range acc {
+				accepted[fmt.Sprintf("%d:%d:%d", tg.attr.nodeOf(r), r.Pos, r.End)]++
+			}
+		}
+		m := map[int][]bool{}
+		for _, r := range all {
 			id := tg.attr.nodeOf(r)
 			if id < 0 {
-				m[-1]++
+				m[-1] = append(m[-1], true)
 				continue
 			}
-			m[id]++
+			v := true
+			if c01Pool[k].where != "" {
+				key := fmt.Sprintf("%d:%d:%d", id, r.Pos, r.End)
+				v = accepted[key] > 0
+				if v {
+					accepted[key]--
+				}
+			}
+			m[id] = append(m[id], v)
+		}
+		for key, n := range accepted {
+			if n > 0 {
+				// an accepted sub-match the bare pattern did not produce: the oracle cannot be trusted for this rule
+				res.Errorf("e2e oracle: pool rule %d (%s): accepted sub-match %s not among the bare pattern's matches", k, c01Pool[k].pat, key)
+			}
 		}
 		tg.alone[k] = m
 		return m, nil
@@ -350,19 +410,34 @@ func ruleSetComposition(c *Ctx, suite, stream string, pool []poolRule, extraTarg
 			var cb strings.Builder
 			cb.WriteString("(cb")
 			bad := false
+			mixed := false
 			for o, k := range occPool {
 				m, err := aloneOf(k, tg)
 				if err != nil {
 					return err
 				}
-				if m[-1] > 0 {
+				if len(m[-1]) > 0 {
 					bad = true
 				}
-				for id, n := range m {
+				for id, vs := range m {
 					if id < 0 {
 						continue
 					}
-					fmt.Fprintf(&cb, " (%d %d%s)", id, o, strings.Repeat(" 1", n))
+					fmt.Fprintf(&cb, " (%d %d", id, o)
+					acc, rej := false, false
+					for _, v := range vs {
+						if v {
+							cb.WriteString(" 1")
+							acc = true
+						} else {
+							cb.WriteString(" 0")
+							rej = true
+						}
+					}
+					cb.WriteString(")")
+					if acc && rej {
+						mixed = true
+					}
 				}
 			}
 			cb.WriteString(")")
@@ -386,17 +461,14 @@ func ruleSetComposition(c *Ctx, suite, stream string, pool []poolRule, extraTarg
 			ops = append(ops, "rules.run "+arg)
 			impl = append(impl, "ok "+strings.Join(pairs, " "))
 			specOps = append(specOps, "rules.spec "+arg)
-			// spec level: one entry per (node, rule), adjacent duplicates (several sub-matches) folded
-			var dedup []string
-			for i, p := range pairs {
-				if i == 0 || pairs[i-1] != p {
-					dedup = append(dedup, p)
-				}
-			}
-			specImpl = append(specImpl, "ok "+strings.Join(dedup, " "))
+			// spec level: the reference delivers one entry per accepted sub-match of the first accepting rule
+			specImpl = append(specImpl, "ok "+strings.Join(pairs, " "))
 			inputs = append(inputs, map[string]interface{}{"rules": files, "target": tg.t.Name, "occurrence_to_pool": occPool, "target_src": string(tg.t.Src)})
 			res.Count(suite, strings.Join(files, "\n")+tg.t.Name, len(full) >= 3 && len(occPool) >= 2)
 			res.Dist(fmt.Sprintf("e2e:files=%d", nf))
+			if mixed {
+				res.Dist("e2e:mixed-verdict-sub-matches")
+			}
 			if len(ops) == 1 {
 				res.Sample(map[string]interface{}{"rules": files, "target": tg.t.Name, "reports": len(full), "pairs(node:rule)": clip(strings.Join(pairs, " "))})
 			}
